@@ -393,10 +393,11 @@ func c20ExecText32(c c20TextCase) kit.Outcome {
 		}
 		return o
 	}
-	if b, ok, _ := c20Dec(strings.ToLower(s), c20B32, 5, 13, 8); ok && strings.ToUpper(s) == s {
-		// Upper-case spelling of an id: String32 never produces it; neither the statement nor the
-		// code comments say whether it is "valid". Accept the id or zero.
-		o.Classes = append(o.Classes, "b32:upper-case-unspecified")
+	if b, ok, _ := c20Dec(strings.ToLower(s), c20B32, 5, 13, 8); ok {
+		// Upper- or mixed-case spelling of an id: String32 never produces it; neither the statement nor
+		// the code comments say whether it is "valid", and it can only be read as that same id.
+		// Accept the id or zero.
+		o.Classes = append(o.Classes, "b32:case-variant-unspecified")
 		if got != 0 && got != Uid(c20FromLE(b)) {
 			o.Viol = kit.V("valid-id-misread:ParseUid32", "ParseUid32(%q)=%d want %d or 0", s, uint64(got), c20FromLE(b))
 		}
